@@ -80,6 +80,28 @@ pub fn gen_step(s: &mut Pool2, rng: &mut Rng, ctx: &mut Ctx) -> Step {
     }
 
     // a swap just put the pending protocol fee on the collection threshold: collect now
+    if !s.queue.is_empty() {
+        return s.queue.remove(0);
+    }
+    // everybody leaves: every user withdraws all its LP so that only the locked minimum liquidity is
+    // left (backed by whatever fees and donations accrued), then somebody deposits again
+    if supply > 0 && rng.chance(1, 40) {
+        let mut q = vec![];
+        for u in 0..s.cfg.n_users {
+            let l = s.lp_bal(s.user(u));
+            if l > 0 {
+                q.push(Step { actor: u, op: Op::Withdraw { lp: l }, adv: 0, fault: Fault::None });
+            }
+        }
+        if !q.is_empty() {
+            ctx.probe("exit_all_then_deposit_scripted");
+            let d0 = match rng.below(4) { 0 => 1, 1 => 1000, _ => rng.edge_amount(bal[0] / 2).max(1) };
+            let d1 = match rng.below(4) { 0 => 1, 1 => d0, _ => rng.edge_amount(bal[1] / 2).max(1) };
+            q.push(Step { actor, op: Op::Provide { amounts: [d0, d1], slippage: None, receiver: None, rev: false, funds_mode: 0 }, adv: 0, fault: Fault::None });
+            s.queue = q;
+            return s.queue.remove(0);
+        }
+    }
     if s.want_collect {
         s.want_collect = false;
         return Step { actor, op: Op::Collect, adv: 0, fault: Fault::None };
